@@ -1589,7 +1589,6 @@ fn run_rejection_runs(cx: &mut Ctx, info: &GenInfo) {
                 longest[di] = longest[di].max(run);
                 for kind in kinds {
                     obs.eval();
-                    obs.nontrivial(hash_of(&(s, kind)));
                     let c = ShapeCase { kind: kind.to_string(), state: s, how: format!("built: {run} candidates rejected in a row") };
                     if let Err(f) = check_shape(&c, &mut obs) {
                         if first.is_none() {
@@ -1601,6 +1600,48 @@ fn run_rejection_runs(cx: &mut Ctx, info: &GenInfo) {
                 }
             }
         }
+    }
+    // two rejected candidates in a row that are bit-for-bit the same point (outputs 3, 4 repeat the mantissas of outputs
+    // 1, 2: 46 linear conditions): a sampler that treats a repeated candidate as a stuck generator must still reject it
+    {
+        let t = &info.t;
+        let (t2, t3) = (t.mul(t), t.mul(t).mul(t));
+        let t4 = t3.mul(t);
+        let (r1, r2, r3, r4) = (t.rows(), t2.rows(), t3.rows(), t4.rows());
+        let mut rows = vec![];
+        for j in 41..64 {
+            rows.push(r1[j] ^ r3[j]);
+        }
+        for j in 41..64 {
+            rows.push(r2[j] ^ r4[j]);
+        }
+        let sys = LinSys::build(&rows);
+        let mut found = 0u64;
+        for i in 0..cx.n(20_000, 262_144) {
+            let free = if sys.free_cols.len() <= 18 && cx.tier == Tier::Thorough { i } else { sm.next() };
+            let Some(s) = sys.solve(0, free) else { continue };
+            if s == 0 {
+                continue;
+            }
+            let raw = first_raw(s, 2);
+            if raw[0] * raw[0] + raw[1] * raw[1] <= 1.0 + 1e-5 {
+                continue;
+            }
+            found += 1;
+            for kind in ["disk", "disk-pt"] {
+                obs.eval();
+                let c = ShapeCase { kind: kind.to_string(), state: s, how: "built: the first rejected candidate is drawn twice in a row".into() };
+                if let Err(f) = check_shape(&c, &mut obs) {
+                    if first.is_none() {
+                        first = Some((c, f));
+                    }
+                }
+            }
+            if found >= 2000 {
+                break;
+            }
+        }
+        obs.class_n("disk: states whose first two candidates are the same rejected point", found);
     }
     obs.max("longest run of rejected candidates exercised (disk)", longest[0] as f64);
     obs.max("longest run of rejected candidates exercised (ball)", longest[1] as f64);
